@@ -330,6 +330,18 @@ func (m *vMonitor) after(x *vRun, o vOp, ob string) {
 					m.report("C02:refused-unlock-changed-state", fmt.Sprintf("unlock %d was refused with result %d but the key changed: %s -> %s", o.req, res, m.before_, st))
 				}
 			}
+			if res == protocol_RESULT_UNOWN_ERROR && o.flag == 0 && x.v.db.status == STATE_LEADER {
+				// the owner CAN release: a plain unlock naming the LockId of exactly one outstanding hold of the key is not "unknown"
+				n := 0
+				for _, h := range m.beforeHolds {
+					if h.lockId == o.lockId {
+						n++
+					}
+				}
+				if n == 1 {
+					m.report("C02:owner-unlock-refused", fmt.Sprintf("unlock %d names LockId %d, which holds key %d (%s), and was refused with UNOWN_ERROR", o.req, o.lockId, o.key, m.before_))
+				}
+			}
 			if res == 0 {
 				// released exactly a hold of that LockId (or the oldest with unlock-first)
 				if !strings.Contains(m.before_, fmt.Sprintf("{%d ", ri.terminal[0].lockId)) {
